@@ -194,7 +194,9 @@ func (d *disconnectHandler) handleGracePeriodExpired() {
 	d.mu.Unlock()
 
 	if d.election.connectionMonitor != nil {
-		if d.election.connectionMonitor.Status() != ConnectionStatusDisconnected {
+		// Only a connection that came back spares the leader; a connection that was closed for
+		// good after the disconnect is still lost
+		if status := d.election.connectionMonitor.Status(); status == ConnectionStatusReconnected || status == ConnectionStatusConnected {
 			// Reconnected, don't demote
 			log := d.election.getLogger()
 			log.Info("connection_reconnected_before_grace_period",
